@@ -46,8 +46,8 @@ type langRun struct {
 	BuildErr *xlang.BuildError
 	Crash    string
 	// per message, per checksum mode (0 = not registered, 1 = registered)
-	Enc [2][]xlang.Res
-	Dec [2][]xlang.Res
+	Enc   [2][]xlang.Res
+	Dec   [2][]xlang.Res
 	Built *xlang.Built
 }
 
@@ -66,19 +66,29 @@ type xRun struct {
 	Langs    map[string]*langRun
 	Ref      []refMsg
 	HasSum   bool
+	Modes    int
 	Dir      string
 }
 
 var xSeq atomic.Int64
 
-func hasSum(p *dsl.Program) bool { return len(xlang.Algs(p)) > 0 }
+func hasSum(p *dsl.Program) bool { return dsl.Has(p.Features(), "sum") }
 
 // runCase compiles the program in process, builds every requested language and runs all
 // messages through encode and decode.
 func runCase(k xCase, keep bool) *xRun {
 	p := k.Prog
 	x := &xRun{Text: dsl.PlainText(p), Langs: map[string]*langRun{}, HasSum: hasSum(p)}
-	res := inproc.Compile(x.Text, k.Langs)
+	// the generators run in the order cmd.Compile uses (Lua, Rust, Go, Java, Python, C++)
+	var ordered []string
+	for _, l := range inproc.Langs {
+		for _, want := range k.Langs {
+			if want == l {
+				ordered = append(ordered, l)
+			}
+		}
+	}
+	res := inproc.Compile(x.Text, ordered)
 	if res.Panic != "" {
 		x.Panic = res.Panic
 		return x
@@ -101,16 +111,18 @@ func runCase(k xCase, keep bool) *xRun {
 		}
 	}
 	modes := 1
-	if x.HasSum {
-		modes = 2
+	if len(xlang.Algs(p)) > 0 {
+		modes = 2 // second pass with the test algorithm registered
 	}
+	x.Modes = modes
 	// reference
 	for _, m := range k.Msgs {
 		pk := p.PacketByName(m.Packet)
 		var rm refMsg
 		for mode := 0; mode < modes; mode++ {
 			reg := mode == 1
-			b, lay := ref.Encode(p, pk, m.Val, func(string) bool { return reg })
+			algs := xlang.Algs(p)
+			b, lay := ref.Encode(p, pk, m.Val, func(a string) bool { _, ok := algs[a]; return reg && ok })
 			rm.Bytes[mode], rm.Layout[mode] = b, lay
 			rm.Canon[mode] = ref.Canon(p, pk, m.Val, lay).Tokens(p, pk)
 		}
